@@ -85,7 +85,9 @@ def snapshot(det):
             try:
                 v = getattr(obj, name)
             except ValueError:
-                v = None  # an unset optional property
+                # an unset optional property — or one set to 0.0, which some getters report as "not specified":
+                # the stored value decides
+                v = getattr(obj, "_" + name, None)
             out["props"][f"{part}.{name}"] = canon(v)
     c = out["containers"]
     ph = det._photon
@@ -279,14 +281,18 @@ def field_of(why):
     return "other"
 
 
-def file_detector_desc(rng, kind, rows, cols):
-    """a stored detector with all 2-D containers initialised (what the load model is asked to bring in)"""
+def file_detector_desc(rng, kind, rows, cols, keep=None):
+    """a stored detector whose 2-D containers `keep` are initialised (default: a random subset, all of them half of
+    the time) — what the load model is asked to bring in; the others are uninitialised in the file"""
     c = {"photon": {"kind": "2d", "offset": float(rng.randrange(1, 50)), "slope": 1.0},
          "pixel": {"offset": float(rng.randrange(100, 150))}, "signal": {"offset": float(rng.randrange(200, 250)) / 4},
          "image": {"dtype": rng.choice(["uint16", "uint32"]), "offset": float(rng.randrange(300, 350))},
          "charge": {"array": {"offset": float(rng.randrange(400, 450))}}}
     if kind == "MKID":
         c["phase"] = {"offset": float(rng.randrange(500, 550))}
+    if keep is None:
+        keep = list(c) if rng.random() < 0.5 else [k for k in c if rng.random() < 0.5]
+    c = {k: v for k, v in c.items() if k in keep}
     return {"type": kind, "rows": rows, "cols": cols, "geometry": {}, "environment": {}, "characteristics": {}, "containers": c}
 
 
@@ -300,9 +306,9 @@ def file_arrays(fdet):
 
     out = {}
     for k in ("photon", "pixel", "signal", "image", "phase"):
-        cont = getattr(fdet, "_" + k, None)
-        if cont is None and k == "phase":
+        if k == "phase" and not hasattr(fdet, "_phase"):
             continue
+        cont = getattr(fdet, "_" + k, None)
         arr = None if cont is None else cont._array
         out[k] = None if arr is None else np.array(arr, copy=True)
     ch = np.array(fdet.charge.array, copy=True)
@@ -345,6 +351,8 @@ def impl_pipeline(case, tmp):
         n = len(lst)
         if kind == "fill":
             lst.append({"name": f"fill{n}_{g[:4]}", "func": "probes.fill", "arguments": {"level": float(arg[1]), "bucket": arg[0]}})
+        elif kind == "fillall":
+            lst.append({"name": f"fillall{n}_{g[:4]}", "func": "probes.c19_fill", "arguments": {"a": float(arg[0]), "b": float(arg[1])}})
         elif kind == "load":
             lst.append({"name": f"load{n}", "func": "pyxel.models.load_detector", "arguments": {"filename": path}})
         elif kind == "snap":
@@ -394,6 +402,12 @@ def impl_direct(case, tmp):
                 cont.array *= float(op[2])
             elif op[0] == "empty":
                 det.empty(bool(op[1]))
+            elif op[0] == "fillall":
+                probes.c19_fill(det, a=float(op[1]), b=float(op[2]))
+            elif op[0] == "setphase":
+                import numpy as np
+
+                det.phase.array = np.full((case["rows"], case["cols"]), float(op[1]))
     except Exception as e:  # noqa: BLE001
         return {"err": "TypeError" if isinstance(e, TypeError) else common.err_kind(e), "msg": str(e)[:200],
                 "snaps": [[r[1], norm_store(r[2])] for r in probes.LOG if r[0] == "c18"], "files": file_arrays(fdet)}
@@ -431,6 +445,16 @@ def simulate(case, files):
             if store.get("phase") is not None:
                 write("phase", np.zeros((rows, cols)))
 
+    def fillall(a, b):
+        idx = np.arange(rows * cols, dtype=float).reshape(rows, cols)
+        off = 16.0 * float(a) + float(b)
+        write("photon", 1000.0 + off + idx / 64.0)
+        prev = store.get("charge")
+        write("charge", (0.0 if prev is None else prev) + 2000.0 + off + idx / 64.0)
+        write("pixel", 3000.0 + off + idx / 64.0)
+        write("signal", 4000.0 + off + idx / 64.0)
+        write("image", np.asarray(5000.0 + off + idx, dtype=np.uint16))
+
     def load():
         nonlocal store
         steps.append(["load", case["file"]["type"], [case["file"]["rows"], case["file"]["cols"]],
@@ -455,6 +479,10 @@ def simulate(case, files):
                 write(op[1], store[op[1]] * float(op[2]))
             elif op[0] == "empty":
                 empty(bool(op[1]))
+            elif op[0] == "fillall":
+                fillall(op[1], op[2])
+            elif op[0] == "setphase":
+                write("phase", np.full((rows, cols), float(op[1])))
         return {"steps": steps, "snaps": snaps, "loads": loads, "finals": finals}
 
     for run in range(case.get("runs", 1)):
@@ -469,6 +497,8 @@ def simulate(case, files):
                         continue
                     if kind == "fill":
                         write(arg[0], np.full((rows, cols), float(arg[1])))
+                    elif kind == "fillall":
+                        fillall(arg[0], arg[1])
                     elif kind == "load":
                         err = load()
                         if err:
@@ -543,16 +573,18 @@ def gen_detector(rng, kind=None):
     kind = kind or rng.choice(TYPES)
     rows, cols = rng.choice([2, 3, 4]), rng.choice([2, 3, 5])
     opt = lambda v: None if rng.random() < 0.25 else v  # noqa: E731
-    geometry = {"total_thickness": opt(rng.choice([10.0, 40.0, 123.5])), "pixel_vert_size": rng.choice([10.0, 12.5, 18.0]),
-                "pixel_horz_size": rng.choice([10.0, 15.0]), "pixel_scale": opt(rng.choice([0.01, 0.25, 1.5]))}
-    wl = rng.choice([None, None, 600.0, 1234.5, {"cut_on": 400.0, "cut_off": 900.0, "resolution": 50}])
-    environment = {"temperature": opt(rng.choice([77.0, 150.5, 300.0])), "wavelength": wl}
+    # every optional numeric property also takes its documented minimum / maximum (0.0 and other false-y values included)
+    geometry = {"total_thickness": opt(rng.choice([10.0, 40.0, 123.5, 0.0, 10000.0])), "pixel_vert_size": rng.choice([10.0, 12.5, 18.0, 1000.0]),
+                "pixel_horz_size": rng.choice([10.0, 15.0, 1000.0]), "pixel_scale": opt(rng.choice([0.01, 0.25, 1.5, 0.0, 1000.0]))}
+    wl = rng.choice([None, None, 600.0, 1234.5, 5e-324, {"cut_on": 400.0, "cut_off": 900.0, "resolution": 50},
+                     {"cut_on": 5e-324, "cut_off": 1.0, "resolution": 1}])
+    environment = {"temperature": opt(rng.choice([77.0, 150.5, 300.0, 1000.0, 5e-324])), "wavelength": wl}
     if kind == "APD":
         pair = rng.choice(["gp", "gc", "pc"])
-        ch = {"roic_gain": rng.choice([0.5, 0.8, 1.0]), "quantum_efficiency": opt(rng.choice([0.5, 0.9, 1.0])),
-              "full_well_capacity": opt(rng.choice([1000, 100000])), "adc_bit_resolution": opt(rng.choice([8, 12, 16])),
-              "adc_voltage_range": opt([0.0, rng.choice([5.0, 10.0])]),
-              "avalanche_gain": rng.choice([1.5, 2.0, 10.0, 50.0]) if "g" in pair else None,
+        ch = {"roic_gain": rng.choice([0.5, 0.8, 1.0, 0.0]), "quantum_efficiency": opt(rng.choice([0.5, 0.9, 1.0, 0.0])),
+              "full_well_capacity": opt(rng.choice([1000, 100000, 0, 10000000])), "adc_bit_resolution": opt(rng.choice([8, 12, 16, 4, 64])),
+              "adc_voltage_range": opt(rng.choice([[0.0, 5.0], [0.0, 10.0], [0.0, 0.0], [-5.0, 0.0]])),
+              "avalanche_gain": rng.choice([1.5, 2.0, 10.0, 50.0, 1.0, 1000.0]) if "g" in pair else None,
               "pixel_reset_voltage": rng.choice([3.0, 5.0, 12.0]) if "p" in pair else None,
               "common_voltage": rng.choice([0.5, 1.0, 2.5]) if "c" in pair else None}
         setter_pool = [("characteristics", "avalanche_gain", rng.choice([1.5, 3.0, 7.0, 20.0])),
@@ -561,9 +593,11 @@ def gen_detector(rng, kind=None):
                        ("characteristics", "quantum_efficiency", rng.choice([0.25, 0.75])),
                        ("characteristics", "adc_bit_resolution", rng.choice([10, 14]))]
     else:
-        ch = {"quantum_efficiency": opt(rng.choice([0.5, 0.9, 1.0])), "charge_to_volt_conversion": opt(rng.choice([1e-6, 3.5e-6])),
-              "pre_amplification": opt(rng.choice([1.0, 100.0])), "full_well_capacity": opt(rng.choice([1000, 100000])),
-              "adc_bit_resolution": opt(rng.choice([8, 12, 16])), "adc_voltage_range": opt([0.0, rng.choice([5.0, 10.0])])}
+        ch = {"quantum_efficiency": opt(rng.choice([0.5, 0.9, 1.0, 0.0])),
+              "charge_to_volt_conversion": opt(rng.choice([1e-6, 3.5e-6, 0.0, 100.0])),
+              "pre_amplification": opt(rng.choice([1.0, 100.0, 0.0, 10000.0])), "full_well_capacity": opt(rng.choice([1000, 100000, 0, 10000000])),
+              "adc_bit_resolution": opt(rng.choice([8, 12, 16, 4, 64])),
+              "adc_voltage_range": opt(rng.choice([[0.0, 5.0], [0.0, 10.0], [0.0, 0.0], [-5.0, 0.0]]))}
         setter_pool = [("characteristics", "quantum_efficiency", rng.choice([0.25, 0.75])),
                        ("characteristics", "adc_bit_resolution", rng.choice([10, 14])),
                        ("characteristics", "pre_amplification", rng.choice([2.0, 50.0])),
@@ -594,6 +628,8 @@ def gen_detector(rng, kind=None):
                                      rng.uniform(0, cols * geometry["pixel_horz_size"] * 0.999)] for _ in range(rng.randrange(1, 4))]
             ch_desc["remove_first"] = rng.random() < 0.3
         c["charge"] = ch_desc
+    if "charge" not in c and rng.random() < 0.3:
+        geometry[rng.choice(["pixel_vert_size", "pixel_horz_size"])] = rng.choice([0.0, None])
     if rng.random() < 0.4:
         c["scene"] = rng.choice([1, 2])
     if rng.random() < 0.4:
@@ -633,6 +669,9 @@ def gen_pipelines(rng, n):
         for _ in range(rng.choice([0, 1, 2, 3])):
             g = rng.randrange(0, at + 1)
             models.append([GROUPS[g], "fill", [rng.choice(["photon", "pixel", "signal"]), rng.randrange(1, 90)]])
+        if rng.random() < 0.6:
+            # the running detector already holds data in every container when the load model executes
+            models.insert(0, [GROUPS[rng.randrange(0, at + 1)], "fillall", [rng.randrange(0, 4), rng.randrange(0, 8)]])
         pre_same = [m for m in models if m[0] == GROUPS[at]]
         models = [m for m in models if m[0] != GROUPS[at]] + pre_same
         if rng.random() < 0.6:
@@ -659,23 +698,45 @@ def gen_pipelines(rng, n):
 
 
 def gen_direct(rng, n):
-    """direct calls of the model function on one detector object, with in-place changes in between"""
+    """direct calls of the model function on one detector object, with in-place changes in between; the first cases
+    enumerate every subset of containers initialised in the file, loaded into a detector that holds data everywhere"""
     cases = []
+    names = ["photon", "pixel", "signal", "image", "charge"]
+    for mask in range(64):
+        kind = "MKID" if mask >= 32 or mask % 4 == 3 else TYPES[mask % 4]
+        keep = [nm for b, nm in enumerate(names) if mask >> b & 1]
+        if kind == "MKID" and (mask >> 5 & 1 or (mask < 32 and mask % 8 == 3)):
+            keep.append("phase")
+        rows, cols = rng.choice([2, 3]), rng.choice([3, 4])
+        ops = [["fillall", rng.randrange(0, 4), rng.randrange(0, 8)]]
+        if kind == "MKID":
+            ops.append(["setphase", float(rng.randrange(600, 650))])
+        ops += [["snap", "before"], ["load"], ["snap", "after"]]
+        cases.append({"stream": "direct", "id": f"subset{mask}", "type": kind, "rows": rows, "cols": cols, "ops": ops,
+                      "file": file_detector_desc(rng, kind, rows, cols, keep=keep)})
     for i in range(n):
         kind = TYPES[i % 4]
         rows, cols = rng.choice([2, 3]), rng.choice([3, 4])
+        fdesc = file_detector_desc(rng, kind, rows, cols)
         ops = []
+        if rng.random() < 0.6:
+            ops.append(["fillall", rng.randrange(0, 4), rng.randrange(0, 8)])
+            if kind == "MKID":
+                ops.append(["setphase", float(rng.randrange(600, 650))])
         for k in range(rng.choice([2, 3, 4])):
             ops.append(["load"])
             ops.append(["snap", "after"])
-            for _ in range(rng.choice([1, 2, 3])):
-                b = rng.choice(["pixel", "signal", "photon"] + (["phase"] if kind == "MKID" else []))
+            mods = [b for b in ["pixel", "signal", "photon"] + (["phase"] if kind == "MKID" else []) if b in fdesc["containers"]]
+            for _ in range(rng.choice([1, 2, 3]) if mods else 0):
+                b = rng.choice(mods)
                 ops.append(["imul", b, rng.choice([2.0, 0.5, 3.0])] if rng.random() < 0.5 else ["iadd", b, float(rng.randrange(1, 50))])
-            if rng.random() < 0.5:
+            r = rng.random()
+            if r < 0.35:
                 ops.append(["empty", rng.random() < 0.5])
                 ops.append(["snap", "emptied"])
-        cases.append({"stream": "direct", "id": i, "type": kind, "rows": rows, "cols": cols, "ops": ops,
-                      "file": file_detector_desc(rng, kind, rows, cols)})
+            elif r < 0.6:
+                ops.append(["fillall", rng.randrange(0, 4), rng.randrange(0, 8)])
+        cases.append({"stream": "direct", "id": i, "type": kind, "rows": rows, "cols": cols, "ops": ops, "file": fdesc})
     return cases
 
 
@@ -759,6 +820,9 @@ def body(ck: common.Check):
                 ck.count(f"{s}:" + ("mismatching-file" if mismatch else "matching-file"))
                 nexec = sum(1 for t, _ in impl["snaps"] if t == "after")
                 ck.count(f"{s}:executions-of-load={min(nexec, 6)}")
+                nfile = sum(1 for v in impl["files"].values() if v is not None)
+                prefilled = any(m[1] == "fillall" for m in case.get("models", [])) or any(o[0] == "fillall" for o in case.get("ops", []))
+                ck.count(f"{s}:file-containers={nfile}/{len(impl['files'])}:" + ("running-detector-prefilled" if prefilled else "running-detector-fresh"))
                 if s == "pipeline":
                     ck.count(f"pipeline:load-in={case['at']}")
                     ck.count(f"pipeline:readouts={case['readouts']}:{'non-destructive' if case['nd'] else 'destructive'}")
@@ -785,7 +849,9 @@ def body(ck: common.Check):
                         ck.count("pipeline:behaves-like-no-op" if like_noop else "pipeline:other-disagreement")
                         ck.disagreement(s, case, fin, model_fin, key="C18:load_detector:no-effect" if like_noop else None)
                 if why is not None:
-                    if "execution 1 of" in why or "result of readout 0" in why:
+                    if "although the file has none" in why and "execution" in why:
+                        key = "C18:load_detector:stale-container-kept"
+                    elif "execution 1 of" in why or "result of readout 0" in why:
                         key = "C18:load_detector:no-effect"
                     elif "execution" in why or "result of readout" in why or "failed at execution" in why:
                         key = "C18:load_detector:not-the-file-state"
@@ -801,7 +867,8 @@ def body(ck: common.Check):
                "1-3 wavelengths, image of 4 dtypes, charge as array and/or 1-3 clusters, 0-2 scene sources, 0-2 data-tree nodes) plus "
                "all 64 subsets of the six 2-D containers of an MKID; saved to ASDF, loaded, compared field by field; pipelines with "
                "load_detector in any of the 10 groups, 0-3 writers before, a snapshot probe after, 0-2 writers after, 16 % stored "
-               "detectors of another type / shape, 1-3 readouts (destructive / non-destructive) × 1-2 runs in one process on the same "
+               "detectors of another type / shape, stored detectors with every / a random subset of the 2-D containers initialised, "
+               "running detector fresh or pre-filled in all containers (all 64 subsets enumerated in the direct stream), 1-3 readouts (destructive / non-destructive) × 1-2 runs in one process on the same "
                "or a fresh detector, so that the model executes up to 6 times on one file; direct calls of the model function 2-4 times "
                "on one detector with in-place += / *= and empty() in between; every execution judged against the file. non-trivial = at least one initialised container; HDF5 not exercised")
     ck.assumptions = [
